@@ -346,8 +346,9 @@ fn set_inner(
         let value = if rest.is_empty() {
             value
         } else {
-            let inner = match map.remove(key) {
-                Some(Value::Map(inner)) => inner,
+            // Keep the existing entry in place, only replace its value.
+            let inner = match map.get(key) {
+                Some(Value::Map(inner)) => inner.clone(),
                 _ => ValueMap::new(),
             };
             Value::Map(set_inner(inner, rest, value)?)
